@@ -150,7 +150,7 @@ def selection_rules(R, ro, P="C05"):
             if k == "isnone" and (s == cand or s in best_names):
                 return e.label == ("T" if pos else "F")     # we are on the "no candidate yet" side
             return True
-        p = cfg.find_path(iter_starts, [st], N, cut_nodes=lt_tests, keep_edge=first_edge)
+        p = cfg.find_path(iter_starts, list(cand_stores), N, cut_nodes=lt_tests, keep_edge=first_edge)
         R.check(p is not None, P + ".ARGMAX", "%s:first" % sel.qualname, site,
                 "while there is no candidate yet, an eligible batch becomes the candidate without a priority comparison",
                 "with no candidate yet, a batch becomes the candidate only through a comparison with the (still unset) best priority: "
